@@ -41,7 +41,7 @@ CHECK_FLAGS = [
 ]
 MEM_KB = 16 * 1024 * 1024
 
-LABEL_RE = re.compile(r"(?:/\*@\s*|\b(?:ENS|REQ)\(\s*\")([A-Za-z0-9+]+/[\w.\-]+)(?:\s*\*/|\")")
+LABEL_RE = re.compile(r"(?:/\*@\s*|\b(?:ENSX?|REQ)\(\s*\")([A-Za-z0-9+]+/[\w.\-]+)(?:\s*\*/|\")")
 DESC_LABEL_RE = re.compile(r"^((?:C\d\d\+?)+|canary|reach)/[\w.\-]+$")
 
 
@@ -107,10 +107,10 @@ def contract_labels(fn):
             # must be a declaration with contract clauses following
             end = txt.find(";", m.end())
             block = txt[m.start():end]
-            if "ENS(" not in block and "REQ" not in block:
+            if "ENS(" not in block and "ENSX(" not in block and "REQ" not in block:
                 continue
             for line in block.splitlines():
-                mm = re.search(r'\bENS\(\s*"([^"]+)"', line)
+                mm = re.search(r'\bENSX?\(\s*"([^"]+)"', line)
                 if mm:
                     out.append(mm.group(1))
             return out
@@ -394,6 +394,24 @@ def run_harness(spec, tier, extra_defs=(), keep=False, trace_props=()):
             parse_results(res, out)
         else:
             parse_results(res, out)
+    # thorough tier: the slowest harnesses are re-decided with a second SAT back end
+    # (CaDiCaL) to detect solver-dependent answers
+    if tier == "thorough" and spec.get("cross_check") and not res.problems and not trace_props:
+        cmd2 = cbmc_cmd(res, ["--sat-solver", "cadical"])
+        out2 = os.path.join(res.dir, "cbmc.cadical.json")
+        rc2, _ = run(cmd2, out2, spec.get("timeout_thorough", spec.get("timeout", 900)))
+        res.cmds.append(" ".join(cmd2))
+        alt = HarnessResult(spec, tier)
+        alt.dir = res.dir
+        if rc2 in (0, 10):
+            parse_results(alt, out2)
+            a = {(o["id"], o["status"]) for o in res.obligations}
+            b = {(o["id"], o["status"]) for o in alt.obligations}
+            res.cross_check = "cadical agrees on %d obligations" % len(a) if a == b else "DISAGREES"
+            if a != b:
+                res.problems.append("SAT back ends disagree (minisat vs cadical) on %d obligations" % len(a ^ b))
+        else:
+            res.cross_check = "cadical run gave no result (exit %s)" % rc2
     res.wall_s = time.time() - t0
     if not trace_props:
         guards(res)
@@ -729,6 +747,7 @@ def write_evidence(prop, tier, seed, results, viol, wall):
             "solver_s": round(r.solver_s, 2), "symex_s": round(getattr(r, "symex_s", 0.0), 2),
             "sat_variables_clauses": getattr(r, "sat_size", None), "wall_s": round(r.wall_s, 1),
             "bounded": s.get("bounded"), "no_verdict": r.problems,
+            "second_backend": getattr(r, "cross_check", None),
             "what": s.get("what", ""),
         })
         if s.get("enforce"):
